@@ -134,6 +134,11 @@ pub fn make_req(
     if let Some(ver) = version {
         headers.push(hdr("x-api-version", ver));
     }
+    // one request in six announces its body with Expect: 100-continue (and,
+    // like curl after its one-second wait, sends it anyway)
+    if r.chance(1, 6) {
+        headers.push(hdr("expect", "100-continue"));
+    }
     // Both framing headers at once, Content-Length first: a server may
     // reject the request or go by Transfer-Encoding alone (RFC 9112 6.1),
     // hyper does the latter and leaves the Content-Length header in place.
